@@ -8,14 +8,36 @@ import vlib
 from props import corpus, scanlib, scen
 
 
-def make_scen(ws, rng, scale=1):
+def make_scen(ws, rng, scale=1, embed=False):
+    """Writes <ws>/scen (support.go + scen.go). Scenario functions the compiler rejects (only the re-embedded
+    ones can be: a context may not fit an operand type) are dropped; the package that is left must build."""
     d = os.path.join(ws, "scen")
     os.makedirs(d, exist_ok=True)
     items = scen.build(rng, scale)
-    src, names = scen.render(items)
+    base = len(items)
+    if embed:
+        items = items + scen.embed(items, rng)
     open(os.path.join(d, "support.go"), "w").write(scen.SUPPORT)
-    open(os.path.join(d, "scen.go"), "w").write(src)
-    return names
+    if not os.path.exists(os.path.join(ws, "go.mod")) and not os.path.exists(os.path.join(os.path.dirname(ws), "go.mod")):
+        raise RuntimeError("make_scen: %s is not inside a module" % ws)
+    for attempt in range(6):
+        src, names = scen.render(items)
+        open(os.path.join(d, "scen.go"), "w").write(src)
+        rc, so, se = vlib.sh(["go", "build", "-gcflags=-e", "./scen"], cwd=ws, timeout=600)
+        if rc == 0:
+            return names
+        # map error lines to scenario functions
+        starts = [i + 1 for i, l in enumerate(src.split("\n")) if re.match(r"^// S\d+ ", l)]
+        bad = set()
+        for m in re.finditer(r"scen\.go:(\d+):", se):
+            ln = int(m.group(1))
+            idx = max([k for k, st in enumerate(starts) if st <= ln], default=None)
+            if idx is not None:
+                bad.add(idx)
+        if not bad or any(k < base for k in bad):
+            vlib.harness_fail("scenario package does not build: " + se[-1500:])
+        items = [it for k, it in enumerate(items) if k not in bad]
+    vlib.harness_fail("scenario package does not settle: " + se[-800:])
 
 
 def run(tier):
@@ -30,7 +52,9 @@ def run(tier):
     for k in range(nscen):
         sub = os.path.join(ws, "sc%d" % k)
         os.makedirs(sub)
-        names = make_scen(sub, vlib.rng("c09-scen-%d" % k), 1 if tier == "quick" else 2)
+        names = make_scen(sub, vlib.rng("c09-scen-%d" % k), 1 if tier == "quick" else 2, embed=True)
+        res.count("scenario_functions", len(names))
+        res.count("scenario_functions_in_other_contexts", sum(1 for _, f in names if "@" in f))
         spats.append("./sc%d/scen" % k)
     gpats, man = corpus.generate(ws, 90 if tier == "quick" else 900, vlib.seed(), vw)
     # namesake packages are C20's subject (a suggestion that spells `len` is wrong there for that reason alone)
